@@ -8,6 +8,7 @@ package chains
 import (
 	"context"
 	"database/sql"
+	"encoding/json"
 	"database/sql/driver"
 	"time"
 
@@ -28,6 +29,8 @@ type Item struct {
 	Nick      sql.NullString
 	Data      []byte
 	OwnerID   uint
+	Payload   json.RawMessage // named byte-slice types: one bound value, like []byte
+	Digest    Hash
 	Owner     *Owner // belongs to; always nil in generated records
 	CreatedAt time.Time
 	UpdatedAt time.Time
@@ -56,7 +59,7 @@ type Tag struct {
 // DDL creates the tables exactly as AutoMigrate would name them (three plain
 // statements are much cheaper than AutoMigrate per case).
 var DDL = []string{
-	"CREATE TABLE `items` (`id` integer PRIMARY KEY AUTOINCREMENT,`name` text,`code` integer,`price` real,`active` numeric,`note` text,`nick` text,`data` blob,`owner_id` integer,`created_at` datetime,`updated_at` datetime,`deleted_at` datetime)",
+	"CREATE TABLE `items` (`id` integer PRIMARY KEY AUTOINCREMENT,`name` text,`code` integer,`price` real,`active` numeric,`note` text,`nick` text,`data` blob,`owner_id` integer,`payload` blob,`digest` blob,`created_at` datetime,`updated_at` datetime,`deleted_at` datetime)",
 	"CREATE TABLE `owners` (`id` integer PRIMARY KEY AUTOINCREMENT,`title` text,`age` integer,`created_at` integer,`updated_at` integer)",
 	"CREATE TABLE `tags` (`id` integer PRIMARY KEY AUTOINCREMENT,`label` text,`weight` integer,`item_id` integer,`made` integer,`touched` integer)",
 }
@@ -65,10 +68,10 @@ var DDL = []string{
 // could not do it) so that reads return something and writes hit something.
 var Seed = []string{
 	"INSERT INTO owners (id,title,age,created_at,updated_at) VALUES (1,'ann',30,1900000000,1900000001),(2,'bob',41,1900000002,1900000003),(3,'o''hara',52,1900000004,1900000005)",
-	"INSERT INTO items (id,name,code,price,active,note,nick,data,owner_id,created_at,updated_at,deleted_at) VALUES " +
-		"(1,'alpha',10,1.5,1,'n1','a',x'01',1,'2030-01-01 00:00:00+00:00','2030-01-01 00:00:00+00:00',NULL)," +
-		"(2,'beta',20,2.5,0,NULL,NULL,NULL,2,'2030-01-02 00:00:00+00:00','2030-01-02 00:00:00+00:00',NULL)," +
-		"(3,'gamma',30,3.5,1,'n3','g',x'0203',1,'2030-01-03 00:00:00+00:00','2030-01-03 00:00:00+00:00','2030-02-01 00:00:00+00:00')",
+	"INSERT INTO items (id,name,code,price,active,note,nick,data,owner_id,payload,digest,created_at,updated_at,deleted_at) VALUES " +
+		"(1,'alpha',10,1.5,1,'n1','a',x'01',1,x'5b312c325d',x'aa01','2030-01-01 00:00:00+00:00','2030-01-01 00:00:00+00:00',NULL)," +
+		"(2,'beta',20,2.5,0,NULL,NULL,NULL,2,NULL,NULL,'2030-01-02 00:00:00+00:00','2030-01-02 00:00:00+00:00',NULL)," +
+		"(3,'gamma',30,3.5,1,'n3','g',x'0203',1,x'5b335d',x'bb','2030-01-03 00:00:00+00:00','2030-01-03 00:00:00+00:00','2030-02-01 00:00:00+00:00')",
 	"INSERT INTO tags (id,label,weight,item_id,made,touched) VALUES (1,'red',5,1,1900000000000,1900000000000000000),(2,'blue',7,1,1900000000001,1900000000000000001),(3,'green',9,2,1900000000002,1900000000000000002)",
 }
 
@@ -86,6 +89,16 @@ func Prepare(pool *sql.DB) error {
 	}
 	return nil
 }
+
+// Hash is a named byte-slice type without a Value method (like json.RawMessage, net.IP).
+type Hash []byte
+
+// IDs and Names are named slice types: lists, but not one of the slice types
+// the equality builders know by name.
+type (
+	IDs   []int64
+	Names []string
+)
 
 // Wrapped is a custom driver.Valuer (value receiver).
 type Wrapped struct{ S string }
